@@ -25,7 +25,7 @@ def poll2uv(e):
 # --------------------------------------------------------------------------
 def gen_case(rng, ring, strict):
     nsl = rng.randint(2, 6)
-    kinds = "sssttttpqe"
+    kinds = "sssttttpqen"
     est_h = [0]
     # every non-empty combination of the four flags, each equally likely; 0 (= stop) now and then
     masks = list(range(1, 16)) * 2 + [0]
@@ -68,10 +68,12 @@ def gen_case(rng, ring, strict):
             return "G%d" % sl
         if r < 0.915:
             return "L%d" % sl
-        if r < 0.935:
+        if r < 0.93:
             return "B%d" % sl
-        if r < 0.945:
+        if r < 0.937:
             return "W%d" % sl
+        if r < 0.955:
+            return "Y%d,%d" % (rng.randrange(3), sl)
         return "R" if top else "K%d" % sl
 
     ops = []
@@ -122,6 +124,54 @@ def sweep_cases():
                            % (ring, m1, m2, m1))
                 out.append("%d 1 ; O0,t J0 S0,%d K0 B0 R T0,%d R W0 R S0,%d R C0 R ; " % (ring, m1, m2, m2))
     return out
+
+
+def notify_cases():
+    """A kernel notification file (POLLIN|POLLERR|POLLPRI on change) with every request mask."""
+    out = []
+    for ring in (1, 0):
+        for m in range(1, 16):
+            out.append("%d 0 ; O0,n I0 S0,%d R K0 R R K0 R T0,0 K0 R S0,%d K0 R C0 K0 R ; " % (ring, m, m))
+    return out
+
+
+def foreign_cases():
+    """uv_pipe_open / uv_tcp_open / uv_udp_open / uv_poll_init on a descriptor that a poll
+    handle (only initialised, started, stopped) or a stream-like watcher (registered, stopped)
+    of the same loop holds; the first handle keeps its registration and its callbacks."""
+    out = []
+    for ring in (1, 0):
+        for k in range(3):
+            y = "Y%d,0" % k
+            out.append("%d 0 ; O0,s I0 %s S0,3 %s I0 K0 R %s R T0,0 %s R S0,1 R %s R ; %s | %s" % (ring, y, y, y, y, y, y, y))
+            out.append("%d 0 ; O0,t J0 %s S0,3 %s I0 K0 R %s R T0,2 %s R T0,1 %s R ; %s" % (ring, y, y, y, y, y, y))
+            out.append("%d 0 ; O0,s O1,s I0 I1 S0,1 S1,3 K0 K1 R R ; %s Y%d,1 | %s Y%d,1" % (ring, y, k, y, k))
+    return out
+
+
+def stale_case(rng, ring):
+    """Stop, then close, while a dup keeps the open file description alive; the number is
+    re-used by a new handle; then the OLD description becomes ready."""
+    k1 = rng.choice("sstp")
+    k2 = rng.choice("sste")
+    first = rng.choice(["J0", "J0", "I0"])
+    m1 = rng.choice([1, 3, 5, 9, 15]) if k1 != "p" else rng.choice([1, 5, 9])
+    ops = ["O0,%s" % k1, first, "S0,%d" % m1]
+    if rng.random() < 0.7:
+        ops.append("K0")
+    ops.append("R")
+    if rng.random() < 0.8:
+        ops.append("T0,15")                 # stopped before the close
+        if rng.random() < 0.5:
+            ops.append("R")
+    ops += rng.choice([["U0,1", "C0", "X0"], ["C0", "U0,1", "X0"]])
+    if rng.random() < 0.5:
+        ops.append("R")
+    ops += ["O0,%s" % k2, rng.choice(["I0", "I0", "J0"]), "S1,%d" % rng.choice([1, 3, 9]), "R"]
+    ops += ["K1", "R", "R"]                 # the old description (through its dup) becomes ready
+    if rng.random() < 0.5:
+        ops += ["W1" if k1 in "st" else "K1", "R"]
+    return "%d %d ; %s ; " % (ring, rng.choice([0, 1]), " ".join(ops))
 
 
 # fixed scenarios (the regression cases of the two repaired defects are in corpus/C14/cases.txt)
@@ -244,7 +294,11 @@ def monitor_tokens(toks):
         elif c == "c":
             body, _, rv = t[1:].partition("~")
             h, st, ev = [int(v) for v in body.split(",")]
-            rev = int(rv) if rv else None
+            rvp = rv.split(",") if rv else []
+            rev = int(rvp[0]) if rvp else None
+            if rev is not None and rev < 0:
+                rev = None                   # a notification file: poll(2) would consume the event
+            fdvalid = (len(rvp) > 1 and rvp[1] == "1")
             x = H.get(h)
             if x is None or x["closed"]:
                 return "poll callback for handle %d after uv_close() returned" % h
@@ -262,6 +316,9 @@ def monitor_tokens(toks):
                     return "poll callback for handle %d with events %d, requested %d" % (h, ev, x["live"])
                 if not (rep & (POLLERR | POLLHUP)) and ev & ~poll2uv(rep):
                     return "poll callback for handle %d with events %d, the kernel reported %d" % (h, ev, rep)
+                if poll2uv(rep) & x["live"] & ~ev:
+                    return ("requested and pending event(s) %d not reported to handle %d (requested %d, kernel "
+                            "reported %d, callback got %d)" % (poll2uv(rep) & x["live"] & ~ev, h, x["live"], rep, ev))
                 if rev is not None and not env_dirty and (rev & POLLNVAL or
                                         (not (rev & (POLLERR | POLLHUP)) and ev & ~poll2uv(rev))):
                     complain("unreal", x["fd"], h, "poll callback for handle %d with events %d but poll(2) on its "
@@ -269,12 +326,26 @@ def monitor_tokens(toks):
             elif st == UV_EBADF:
                 if not rep & POLLERR:
                     return "UV_EBADF callback for handle %d, the kernel reported %d" % (h, rep)
+                if rep & POLLPRI:
+                    return ("UV_EBADF reported and handle %d stopped on a descriptor that is open and valid "
+                            "(fcntl(F_GETFD) %s): the kernel reported POLLPRI together with POLLERR (%d), a "
+                            "notification, not an error; requested %d" % (h, "succeeds" if fdvalid else "fails", rep, x["live"]))
                 if rev is not None and not env_dirty and not rev & (POLLERR | POLLNVAL):
                     complain("unreal", x["fd"], h, "UV_EBADF callback for handle %d but poll(2) on its descriptor "
                              "says %d: no error condition" % (h, rev))
                 x["live"] = None
             else:
                 return "poll callback with status %d" % st
+        elif c == "y":
+            m = re.match(r"y(\d)@(\d+)=(.)$", t)
+            k, fd, res = int(m.group(1)), int(m.group(2)), m.group(3)
+            holders = [j for j, x in H.items() if x["fd"] == fd and not x["closed"] and
+                       ((x["kind"] == "i" and x["live"]) or (x["kind"] == "j" and x["pev"]))]
+            name = ["uv_pipe_open", "uv_tcp_open", "uv_udp_open"][k]
+            if holders and res != "E":
+                return "%s accepted descriptor %d which handle %d of the same loop is watching (must be UV_EEXIST)" % (name, fd, holders[0])
+            if not holders and res == "E":
+                return "%s refused descriptor %d with UV_EEXIST although no watcher is registered for it" % (name, fd)
         elif c == "w":
             h = int(t[1:].split(",")[0])
             x = H.get(h)
@@ -390,7 +461,9 @@ def main():
     if os.path.exists(cp):
         corpus = [l.rstrip("\n") for l in open(cp) if l.strip() and not l.startswith("#")]
     n = 120000 if thorough else 2400
-    cases = list(FIXED) + corpus + sweep_cases()
+    cases = list(FIXED) + corpus + sweep_cases() + notify_cases() + foreign_cases()
+    for i in range(1200 if thorough else 120):
+        cases.append(stale_case(chk.rng, i % 2))
     for i in range(n):
         ring = i % 2
         strict = 1 if chk.rng.random() < 0.6 else 0
